@@ -18,6 +18,7 @@ CHECKS = {
  "C08": ("model_checking", "At the end of recorded histories the harness merges sets of <= 4 data at a fresh observer in every order and two groupings; TLC compares the distinct outcomes pairwise with Props!C08 (same knowledge; equal modulo senders without streams).", "TLA+ trace validation of observer-merge events; invariant Props!C08"),
  "C09": ("model_checking", "TLC checks bag inclusion of the results (by content id) of previous and current data in the output of every successful recorded run.", "TLA+ trace validation; invariant Props!C09"),
  "C10": ("model_checking", "TLC evaluates the independent recursive-descent reader AirData!WF on every trace the real code produced (runs and observer merges).", "TLA+ trace validation; invariant AirData!WF"),
+ "C01": ("fault_enumeration", "TLC enumerates (a) structural tamper operations on everything no signature covers (par sizes, fold lore positions/lengths, generations, state kinds, store entries referenced from the trace, raw values of the attacker's re-signed results, truncation/duplication; pairs in the thorough tier) x positions x boundary values x victim states over data of four honest base histories, (b) token-level mutations of scripts through parse/beautify/execute, (c) byte-level mutations of honest data through execute and pretty-printing, (d) every script of the generated AST family executed to quiescence. Each input runs on the real code under catch_unwind in a child process with an address-space ceiling and a journal; TLC validates that no record reports a panic or a dead process. Six crashes found this way are repaired by fix: commits, two are recorded as known findings.", "TLA+ enumeration of fault cases (Adversary.tla, FnSpec.tla) + fault injection on the real code + trace validation"),
  "C14": ("fault_enumeration", "TLC enumerates the whole catalogue of tamper operations (value swap in place / with consistent re-hash, tetraplet and argument-hash change, relocation and replay of a result at another call, state-kind change, result removal, signature drop/swap, particle-id change; pairs in the thorough tier) x target positions x victim states; each is applied by the harness to honest data (attacker re-signs only his own results) and run on the real victim; TLC checks that every result attributed to an honest peer in the victim's new data is one that peer really produced (C14a) and that the new data re-reads without parameter mismatch under the model interpreter (C14b). The ideal-signature model's accept/reject decision is compared with the implementation's on every case (reported as conformance).", "TLA+ enumeration of tamper cases (Adversary.tla) + fault injection on the real code + trace validation"),
  "C15": ("fault_enumeration", "Same enumeration, invariant Adversary!C15a/b: per-peer content-id bags of previous and current data that are not nested => rejected in preparation with the previous data returned; otherwise the new data holds the larger bag. Honest part: TraceNet!InvC15 checks nestedness and non-rejection on every run of seeded honest histories.", "TLA+ enumeration of fork/tamper cases + trace validation (Adversary.tla, TraceNet!InvC15)"),
  "C16": ("model_checking", "Every request any host receives in recorded histories of fragment scripts is checked by TLC (TraceNet!InvC16) for bag inclusion in the calls of the independent sequential evaluator SeqSem (same peer, service, function, argument values).", "TLA+ trace validation against the sequential reference evaluator SeqSem.tla"),
@@ -35,7 +36,6 @@ CHECKS = {
 }
 
 NOT_YET = {
- "C01": "check not built yet in this revision (adversarial tamper enumeration, DESIGN.md section 6)",
  "C11": "needs the model annotator (stage 2 of the interpreter specification); not built yet",
  "C12": "needs stream-aware annotator (stage 2); not built yet",
  "C13": "needs the model's stream contents as oracle (stage 2); not built yet",
